@@ -259,7 +259,7 @@ pub fn run(ctx: &Ctx) -> Report {
     let burn_secs = ctx.tier.pick(20u64, 60);
     let burners = std::thread::scope(|s| {
         let h = s.spawn(|| run_sharded_raw(ctx, 10, 10, &[("RCE_C16_ROLE", "burn".to_string()), ("RCE_C16_BURN", burn_secs.to_string())]));
-        let storm = s.spawn(|| cold_start_storm(ctx, ctx.tier.pick(1200, 12_000), 48));
+        let storm = s.spawn(|| cold_start_storm(ctx, ctx.tier.pick(4000, 40_000), 128));
         let workers = run_sharded_raw(ctx, 4, 4, &[("RCE_C16_ROLE", "work".to_string())]);
         let _ = h.join();
         (workers, storm.join().unwrap_or_default())
@@ -268,7 +268,7 @@ pub fn run(ctx: &Ctx) -> Report {
     rep.eval(storm.len() as u64);
     if storm.len() >= 2 {
         rep.nontrivial(o::hash_str("cold-start-storm"));
-        rep.class_n("cold-start-storm:fresh-processes(48 at a time, under the busy loops)", storm.len() as u64);
+        rep.class_n("cold-start-storm:fresh-processes(128 at a time, under the busy loops)", storm.len() as u64);
         let mut kinds: std::collections::BTreeMap<(String, String), usize> = Default::default();
         for r in &storm {
             *kinds.entry(r.clone()).or_insert(0) += 1;
@@ -538,5 +538,5 @@ pub fn replay(ctx: &Ctx, case: &Value) -> Report {
 }
 
 pub const LEVEL: &str = "exploration";
-pub const RULE: &str = "(position, depth) = the 62 bench FENs at depth 4-5 (quick) / 5-6 (thorough), corpus positions at depth 3-4 and 30/120 positions WITH game history (10-16 plies of weighted play, so remembered repetitions matter), each searched from an emptied cache 3 times per process in different orders with searches of other positions in between, in 4 separate processes running at the same time as 10 busy-loop processes and as the real 'bench' subcommand (x2 quick / x4 thorough, one run frozen for 6 s by SIGSTOP/SIGCONT); the same searches as the only search of a fresh engine process (x3: plain; after ucinewgame with the command loop held 60 ms after spawning the search; after ucinewgame with 200 ms + the search thread held 30 ms) must equal the long-lived processes' results; one deep search (depth 8 quick / 9 thorough, > 250 000 cache entries) in three concurrent engine processes, one frozen for 1.2 s; a depth-6 search with and without the advertised options set; each worker process starts with a different primer search (other side to move, drawn endings, a game with repetitions) and visits the list in its own rotation, reverse rotation and stride order; draw-rich positions (stalemate traps, fifty-move clocks 96-97, to-and-fro histories) are part of the list; a cold-start storm (1200 quick / 12000 thorough freshly started engine processes, 48 at a time while the busy loops run, the whole input written at once so the first search overlaps with whatever the process does right after start-up) must give one single (bestmove, nodes) answer; oracle = equality of (bestmove, root score, node count) across all repetitions and processes, and of the bench node total. Non-trivial = (position, depth) with >= 1000 nodes, plus the bench comparison; distinct by (position, depth).";
+pub const RULE: &str = "(position, depth) = the 62 bench FENs at depth 4-5 (quick) / 5-6 (thorough), corpus positions at depth 3-4 and 30/120 positions WITH game history (10-16 plies of weighted play, so remembered repetitions matter), each searched from an emptied cache 3 times per process in different orders with searches of other positions in between, in 4 separate processes running at the same time as 10 busy-loop processes and as the real 'bench' subcommand (x2 quick / x4 thorough, one run frozen for 6 s by SIGSTOP/SIGCONT); the same searches as the only search of a fresh engine process (x3: plain; after ucinewgame with the command loop held 60 ms after spawning the search; after ucinewgame with 200 ms + the search thread held 30 ms) must equal the long-lived processes' results; one deep search (depth 8 quick / 9 thorough, > 250 000 cache entries) in three concurrent engine processes, one frozen for 1.2 s; a depth-6 search with and without the advertised options set; each worker process starts with a different primer search (other side to move, drawn endings, a game with repetitions) and visits the list in its own rotation, reverse rotation and stride order; draw-rich positions (stalemate traps, fifty-move clocks 96-97, to-and-fro histories) are part of the list; a cold-start storm (4000 quick / 40000 thorough freshly started engine processes, 128 at a time while the busy loops run, the whole input written at once so the first search overlaps with whatever the process does right after start-up) must give one single (bestmove, nodes) answer; oracle = equality of (bestmove, root score, node count) across all repetitions and processes, and of the bench node total. Non-trivial = (position, depth) with >= 1000 nodes, plus the bench comparison; distinct by (position, depth).";
 pub const ASSUMPTIONS: &[&str] = &["equality is the whole oracle; nothing is assumed about which move is best", "machine load is produced by the harness itself (10 busy loops + concurrent bench runs on 16 cores)"];
